@@ -296,7 +296,9 @@ func normalizeToken(in string) string {
 	// are not exact match on the token.
 	// Normalizing URLs from https to http is an example of a fix applied
 	// here.
-	return strings.ReplaceAll(in, "https", "http")
+	// Only the scheme is rewritten: replacing every "https" is not idempotent once
+	// punctuation is removed ("https://source..." -> "httpsource..." -> "httpource...").
+	return strings.ReplaceAll(in, "https://", "http://")
 }
 
 func flushBuf(pos int, obuf []byte, normalizeWord bool, ld *dictionary) tokenID {
